@@ -263,4 +263,23 @@ def c10(q):
     }
 
 
-PLANS = {"C01": c01, "C02": c02, "C03": c03, "C04": c04, "C05": c05, "C06": c06, "C07": c07, "C08": c08, "C09": c09, "C10": c10, "C11": c11, "C12": c12, "C13": c13, "C14": c14, "C18": c18, "C19": c19, "C15": c15, "C17": c17, "C20": c20}
+def c16(q):
+    return {
+        "level": "exploration",
+        "rule": ("'exhaustive16': every value of the four 16-bit portable integers (4 x 65536) x 24 partners (boundary set + random): stored bytes vs to_le_bytes/to_be_bytes, as_bytes, lossless round trip, ALIGN/SIZE, "
+                 "zero/one/min/max/is_zero, to_u64/to_i64/to_usize/to_f64, from_u64/from_i64/from_usize, NumCast from u64/i64/f64/self, Ord/PartialOrd, == vs byte equality, + - * / % and their assign forms, Neg/abs/abs_sub/signum/"
+                 "is_positive/is_negative, each compared with the native type in the same build profile INCLUDING whether the operation panics. 'random': the 12 integer and 4 float types with boundary values (powers of two +-1, "
+                 "byte-distinct and palindromic patterns, NaN payloads, infinities, +-0) and random values/pairs; Bool: all 256 bytes through validate, all operator combinations. NaN results of arithmetic are compared as NaN "
+                 "(Rust does not specify the payload of a computed NaN); conversions are compared bit-exact. evaluations = value and pair comparisons; distinct = distinct blocks of values."),
+        "exhaustive": True,
+        "exhaustive_note": "unary checks are exhaustive for the 16-bit types and for Bool; wider types and binary operations are sampled",
+        "gates": ["exhaustive16-blocks", "type:Bool", "type:le::F32", "type:be::I64"],
+        "jobs": [
+            {"sub": "exhaustive16", "cfgs": ["debug", "release"], "cases": 1024, "ms": 0, "hang_ms": 120_000},
+            {"sub": "random", "cfgs": ["debug", "release"], "cases": 400 if q else 20_000, "ms": 25_000 if q else 300_000, "hang_ms": 120_000},
+            {"sub": "random", "cfgs": ["miri"], "cases": 4 if q else 40, "ms": 40_000 if q else 300_000, "shards": 17, "wall": 300 if q else 900},
+        ],
+    }
+
+
+PLANS = {"C01": c01, "C02": c02, "C03": c03, "C04": c04, "C05": c05, "C06": c06, "C07": c07, "C08": c08, "C09": c09, "C10": c10, "C11": c11, "C12": c12, "C13": c13, "C14": c14, "C18": c18, "C19": c19, "C15": c15, "C16": c16, "C17": c17, "C20": c20}
